@@ -23,8 +23,11 @@ How values are fed: the interpreter represents iN / index values as Python ints.
 yields `IntegerAttr.value.data`, which xDSL normalises to the SIGNED form (i3 7 -> -1, i1 true -> -1);
 every `to_signed`-based op returns the signed form too, so operands are fed in signed form.  The one other
 representative the interpreter itself produces for correct results is Python `True` (== 1) from
-arith.cmpi / arith.cmpf, so i1 operands are fed as 0, -1 AND 1.  Other non-canonical values only
-arise inside multi-op programs (from earlier results) and are never invented by the harness.
+arith.cmpi / arith.cmpf, so i1 operands are fed as 0, -1 AND 1.  For the widths 2..UFORM_UPTO (i2, i3) every
+negative bit pattern is ALSO fed in its unsigned form (i3: 4..7) -- the other representative of xDSL's documented signless
+range, which a caller of Interpreter.call_op may pass as a function argument and which every op must read as the same bit
+pattern (C15-m8: shrsi without to_signed).  Values outside the signless range only arise inside multi-op programs (from
+earlier defective results) and are never invented by the harness.
 
 What is asserted for an integer result r of width w (property: "integer results wrap to the type width
 and stay in the type's range"): r is a Python int, r mod 2^w equals the reference bit pattern
@@ -51,6 +54,7 @@ from mc.pool import pmap
 from mc.stats import Stats
 
 INDEX_W = 64
+UFORM_UPTO = 3  # widths 2..UFORM_UPTO are fed in BOTH signless representatives (signed and unsigned form)
 POISON = R.POISON
 
 
@@ -168,6 +172,10 @@ def int_feed(s: str, exhaustive_upto: int, big: bool) -> list[tuple[int, int]]:
         vals = [sform(b, w) for b in range(1 << w)]
         if w == 1:
             vals.append(1)  # Python True == 1: what arith.cmpi returns for "true"
+        elif w <= UFORM_UPTO:
+            # the other representative of xDSL's documented signless range (utils/comparisons.py): the UNSIGNED form of the
+            # negative bit patterns, which callers of Interpreter.call_op may pass for function arguments (C15-m8)
+            vals += list(range(1 << (w - 1), 1 << w))
     else:
         vals = boundary_ints(w, big)
     return [(v, v & m) for v in vals]
